@@ -75,7 +75,7 @@ Section Inv.
   (* the dtype memo never removes an entry (extracted fact: Gen/S_threads.memo_no_deletion) *)
   Hypothesis no_del : memo_clear_bound cfg = None.
   (* results handed to the caller are private buffers (extracted fact: Gen/S_threads.todense_result_fresh) *)
-  Hypothesis fresh : todense_fresh cfg = true.
+  Hypothesis fresh : buffers_fresh cfg = true.
 
   Notation step_thread := (step_thread cfg f conv).
   Notation step_at := (step_at cfg f conv).
@@ -621,7 +621,7 @@ Qed.
 (* the generated shapes are the ones the model transcribes *)
 Lemma src_shapes_modelled :
   attr_memo_three_stage = true /\ memo_check_then_set = true /\ memo_no_deletion = true /\
-  memo_clear_bound src_config = None /\ todense_fresh src_config = true /\ (1 <= maxlen src_config)%nat.
+  memo_clear_bound src_config = None /\ buffers_fresh src_config = true /\ (1 <= maxlen src_config)%nat.
 Proof. repeat split; vm_compute; auto. Qed.
 
 (* ---------------------------------------------------------------- non-vacuity *)
@@ -963,7 +963,7 @@ Qed.
 (* a todense that may return a VIEW of the operand's storage: a caller's in-place write to its own result
    changes the shared operand (and with it the value of every later call) *)
 Lemma view_write_reaches_operands cfg f conv :
-  todense_fresh cfg = false ->
+  buffers_fresh cfg = false ->
   exists progs sched, operands (fst (run cfg f conv sched (init [7] progs))) <> [7].
 Proof.
   intros H. exists [[CDenseWrite 1]], [0; 0; 0]%nat.
